@@ -8,12 +8,21 @@ from props.common import *  # noqa: F401,F403
 RULE = ("valid graphs from the generator, whose ancestry DAGs favour the coincidence 'descendant start == ancestor "
         "end'; a case is one graph; non-trivial = at least one deme has ancestors; distinct by ancestry structure. "
         "Second stream: Split / Branch / Merge / Admix records constructed directly over a grid of valid and invalid "
-        "field values; a case is one constructor call; non-trivial = every one; distinct by class and fields")
+        "field values; a case is one constructor call; non-trivial = every one; distinct by class and fields. "
+        "Third stream: ordered pairs (record, perturbed copy) of real Split / Branch / Merge / Admix objects (renamed parent / "
+        "child, children or (parent, proportion) pairs permuted together or separately, a time or proportion moved by 1/2x or "
+        ">= 2x the tolerance, other lengths, other class, records only attribute assignment can produce), default and custom "
+        "tolerances, both orders; a case is one ordered pair with its tolerances; non-trivial = the copy differs")
 ASSUMPTIONS = ["children of a Split come out of a Python set: compared as sorted lists",
                "record grid: proportions are dyadic, so Python's float sum is the exact sum the Model computes; "
-               "names are ASCII; a field outside the wire typing (non-str name, non-list, non-number) counts as refused"]
+               "names are ASCII; a field outside the wire typing (non-str name, non-list, non-number) counts as refused",
+               "closeness of records: perturbation factors are a factor >= 2 away from the tolerance, so the double evaluation "
+               "of math.isclose cannot disagree with the exact one; tolerances are non-negative (math.isclose raises ValueError "
+               "on negative ones); a non-record `other` is checked on the real code only"]
 EXPLANATION = ("Theorems pred_is_ancestors, succ_is_transpose, pred_succ_total, events_spec(_ordered), events_partition(_count), "
-               "events_records_valid, events_checked_total/_spec and the record-predicate lemmas "
+               "events_records_valid, events_checked_total/_spec, the record-predicate lemmas and (closeness of the records) "
+               "record_isclose_refl/_symm/_sound, record_assert_iff_isclose, record_assert_value, split_/branch_isclose_iff, "
+               "merge_isclose_matched/_same_parents/_perm_pairs and the *_isclose_detects_* lemmas "
                "over the Lean Model; Model tied to the code by exact comparison (views, events, the validating events "
                "function, and accept/reject of every record class over a field grid); the classification rules re-evaluated "
                "on the code's own output.")
@@ -162,6 +171,193 @@ def run_records(ctx):
                              {"accepts": real, "exception": exc}, r)
 
 
+CLOSE_TOLS = [(None, None), (2.0 ** -20, 0.0), (0.0, 0.0), (0.0, 2.0 ** -10)]
+
+
+def real_record(kind, fields, ctx=None):
+    """a real record with these fields: through the constructor when it accepts them, else a valid record of the class
+    whose attributes are then assigned (attrs does not validate on assignment) -> (record, 'constructed' | 'assigned')"""
+    import demes.demes as dd
+    cls = getattr(dd, RECORD_CLASS[kind])
+    try:
+        return cls(**copy.deepcopy(fields)), "constructed"
+    except Exception:  # noqa: BLE001
+        base = {"split": {"parent": "a", "children": ["b"], "time": 1},
+                "branch": {"parent": "a", "child": "b", "time": 1},
+                "merge": {"parents": ["a", "b"], "proportions": [0.5, 0.5], "child": "c", "time": 1},
+                "admix": {"parents": ["a", "b"], "proportions": [0.5, 0.5], "child": "c", "time": 1}}[kind]
+        rec = cls(**base)
+        for k, v in copy.deepcopy(fields).items():
+            setattr(rec, k, v)
+        return rec, "assigned"
+
+
+def close_bases(ctx):
+    names = ["A", "B", "C", "D", "E", "F", "_g", "h1"]
+    times = [0, 1.5, 50, 100, 2.0 ** -40, 1e6]
+    props = [[0.25, 0.75], [0.5, 0.5], [0.125, 0.875], [0.25, 0.25, 0.5], [0.125, 0.375, 0.5], [0.125, 0.125, 0.25, 0.5]]
+    out = [("split", {"parent": "A", "children": ["B", "C"], "time": 100}),
+           ("split", {"parent": "X", "children": ["Y"], "time": 0}),
+           ("branch", {"parent": "B", "child": "D", "time": 80}),
+           ("merge", {"parents": ["C", "D"], "proportions": [0.25, 0.75], "child": "E", "time": 50}),
+           ("admix", {"parents": ["B", "E"], "proportions": [0.25, 0.75], "child": "F", "time": 20})]
+    n = 40 if ctx.tier == "quick" else 1500
+    for _ in range(n):
+        k = ctx.rng.choice(["split", "branch", "merge", "admix"])
+        pool = ctx.rng.sample(names, len(names))
+        t = ctx.rng.choice(times)
+        if k == "split":
+            out.append((k, {"parent": pool[0], "children": pool[1:1 + ctx.rng.randint(1, 4)], "time": t}))
+        elif k == "branch":
+            out.append((k, {"parent": pool[0], "child": pool[1], "time": t}))
+        else:
+            pr = list(ctx.rng.choice(props))
+            ctx.rng.shuffle(pr)
+            out.append((k, {"parents": pool[1:1 + len(pr)], "proportions": pr, "child": pool[0], "time": t}))
+    return out
+
+
+def close_variants(kind, f, rel, ab, rng):
+    """[(perturbation, kind', fields', expected)]: expected True close / False not close / None not predicted"""
+    rel = 1e-9 if rel is None else rel
+    ab = 1e-12 if ab is None else ab
+    out = [("same", kind, copy.deepcopy(f), True)]
+
+    def var(name, exp, k2=None, **changes):
+        g = copy.deepcopy(f)
+        g.update(changes)
+        out.append((name, k2 or kind, g, exp))
+
+    t = f["time"]
+    if t == 0:
+        if ab > 0:
+            var("time_small", True, time=ab / 2)
+        var("time_big", False, time=max(4 * ab, 2.0 ** -35))
+    else:
+        if rel > 0:
+            var("time_small", True, time=t * (1 + rel / 2))
+        elif ab > 0 and t + ab / 2 != t:
+            var("time_small", True, time=t + ab / 2)
+        big = t * (1 + max(2 * rel, 2.0 ** -20))
+        var("time_big", False if abs(big - t) > 2 * ab else None, time=big)
+    var("parent_or_child_renamed", False, **({"parent": f["parent"] + "_q"} if "parent" in f else {"child": f["child"] + "_q"}))
+    if kind == "split":
+        ch = f["children"]
+        if len(ch) > 1:
+            sh = ch[1:] + ch[:1]
+            var("children_permuted", True, children=sh)
+            var("child_dropped", False, children=ch[:-1])
+        var("child_added", False, children=ch + ["zz"])
+        var("child_renamed", False, children=ch[:-1] + [ch[-1] + "_q"])
+        var("child_repeated", False, children=ch + [ch[0]])            # only by assignment
+        out.append(("other_class", "branch", {"parent": f["parent"], "child": ch[0], "time": t}, False))
+    elif kind == "branch":
+        var("child_renamed", False, child=f["child"] + "_q")
+        out.append(("other_class", "split", {"parent": f["parent"], "children": [f["child"]], "time": t}, False))
+    else:
+        ps, pr = f["parents"], f["proportions"]
+        rot = lambda xs: xs[1:] + xs[:1]
+        distinct = max(pr) - min(pr) > 1e-3 and rot(pr) != pr
+        var("pairs_permuted", True, parents=rot(ps), proportions=rot(pr))
+        var("parents_permuted_only", (False if sorted(zip(rot(ps), pr)) != sorted(zip(ps, pr)) and distinct else None), parents=rot(ps))
+        var("proportions_permuted_only", (False if sorted(zip(ps, rot(pr))) != sorted(zip(ps, pr)) and distinct else None), proportions=rot(pr))
+        i, j = pr.index(min(pr)), pr.index(max(pr))
+        if i != j:
+            if rel > 0 or ab > 0:
+                d = pr[i] * rel / 2 if rel > 0 else ab / 2
+                q = list(pr); q[i] += d; q[j] -= d
+                var("proportion_small", True, proportions=q)
+            d = pr[i] * max(2 * rel, 2.0 ** -20) if ab < 2.0 ** -22 else 4 * ab
+            q = list(pr); q[i] += d; q[j] -= d
+            var("proportion_big", False if d > 2 * ab else None, proportions=q)
+        var("parent_renamed", False, parents=ps[:-1] + [ps[-1] + "_q"])
+        var("parent_added", False, parents=ps + ["zz"], proportions=[x / 2 for x in pr] + [0.5])
+        var("other_class", False, k2=("admix" if kind == "merge" else "merge"))
+        # records no constructor returns (reachable by assigning to attributes only)
+        var("fewer_proportions_than_parents", None, proportions=pr[:-1])
+        var("parent_repeated", None, parents=[ps[0]] + ps[:-1])
+    return out
+
+
+def assert_outcome(a, b, kw):
+    try:
+        r = a.assert_close(b, **kw)
+    except AssertionError:
+        return "raises"
+    return "True" if r is True else "None" if r is None else repr(r)
+
+
+def close_request(ka, fa, kb, fb, rel, ab):
+    from wire import num_str
+    req = {"op": "record_isclose", "a": {"kind": ka, "fields": enc(fa)}, "b": {"kind": kb, "fields": enc(fb)}}
+    if rel is not None:
+        req["rel"] = num_str(rel); req["abs"] = num_str(ab)
+    return req
+
+
+def close_repro(ka, fa, kb, fb, kw):
+    return ("/venv/bin/python -c \"import demes.demes as dd; "
+            f"a = dd.{RECORD_CLASS[ka]}(**{fa!r}); b = dd.{RECORD_CLASS[kb]}(**{fb!r}); kw = {kw!r}; "
+            "print(a.isclose(b, **kw), b.isclose(a, **kw))\"   # (a record the constructor refuses: build a valid one and assign the attributes)")
+
+
+def run_records_close(ctx):
+    """third stream: closeness of the event records, real `isclose` / `assert_close` against the Model's"""
+    cases = []
+    for kind, f in close_bases(ctx):
+        for rel, ab in ([ctx.rng.choice(CLOSE_TOLS)] if ctx.tier == "quick" and len(cases) > 400 else CLOSE_TOLS):
+            for name, k2, f2, exp in close_variants(kind, f, rel, ab, ctx.rng):
+                ra, how_a = real_record(kind, f)
+                rb, how_b = real_record(k2, f2)
+                cases.append((name, kind, f, ra, k2, f2, rb, rel, ab, exp, how_b))
+                cases.append((name, k2, f2, rb, kind, f, ra, rel, ab, exp, how_b))
+    reps = ctx.driver.batch([close_request(ka, fa, kb, fb, rel, ab) for (_n, ka, fa, _ra, kb, fb, _rb, rel, ab, _e, _h) in cases])
+    notes = set()
+    seen_exp = set()
+    returns = {}
+    for (name, ka, fa, ra, kb, fb, rb, rel, ab, exp, how), r in zip(cases, reps):
+        kw = {} if rel is None else {"rel_tol": rel, "abs_tol": ab}
+        v = ra.isclose(rb, **kw)
+        w = assert_outcome(ra, rb, kw)
+        ctx.count({"a": [ka, fa], "b": [kb, fb], "tol": [rel, ab]}, name != "same",
+                  tags=[f"close:{ka}:{name}", f"close={v}", f"close:copy_{how}"])
+        ctx.compared += 1
+        case = {"perturbation": name, "a": {"kind": ka, "fields": fa}, "b": {"kind": kb, "fields": fb}, "tolerances": [rel, ab],
+                "reproduce": close_repro(ka, fa, kb, fb, kw)}
+        m = r.get("ok")
+        if m is None or m.get("isclose") is not v or m.get("assert") != w:
+            ctx.disagreement("record_isclose", case, {"isclose": v, "assert_close": w}, r)
+        if w != "raises":
+            returns.setdefault(RECORD_CLASS[ka], set()).add(w)
+        # the real code against itself and against the independent expectation: C14 / C10 do not name these methods,
+        # so an oddity is a NOTE (and, the Model proving the law, also a disagreement above for one of the two orders)
+        if v is not (w != "raises"):
+            notes.add(f"{RECORD_CLASS[ka]}: isclose and assert_close disagree ({name})")
+        if v is not rb.isclose(ra, **kw):
+            notes.add(f"{RECORD_CLASS[ka]} / {RECORD_CLASS[kb]}: isclose is not symmetric ({name})")
+        if not ra.isclose(ra, **kw):
+            notes.add(f"{RECORD_CLASS[ka]}: isclose is not reflexive")
+        if exp is not None and v is not exp and (ka, name) not in seen_exp:
+            seen_exp.add((ka, name))           # one example per class and perturbation
+            notes.add(f"{RECORD_CLASS[ka]}: isclose is {v} after '{name}' (expected {exp}), tolerances {[rel, ab]}, a={fa}, b={fb}")
+    # a non-record `other` (real code only): the class assert fails, nothing else is read
+    import demes.demes as dd
+    rec = dd.Branch(parent="a", child="b", time=1)
+    for other in ("a string", None, 3, dd.Pulse(sources=["a"], dest="b", time=1, proportions=[0.5])):
+        ctx.compared += 1
+        ctx.count({"non_record_other": repr(type(other))}, True, tags=["close:non_record_other"])
+        try:
+            if rec.isclose(other) is not False or assert_outcome(rec, other, {}) != "raises":
+                notes.add(f"a record is close to {other!r}")
+        except Exception as e:  # noqa: BLE001
+            notes.add(f"Branch.isclose({other!r}) raises {type(e).__name__}")
+    if {k: sorted(v) for k, v in returns.items()} != {"Split": ["True"], "Branch": ["None"], "Merge": ["None"], "Admix": ["None"]}:
+        notes.add(f"assert_close return values: { {k: sorted(v) for k, v in returns.items()} }")
+    else:
+        notes.add("Split.assert_close returns True where Branch / Merge / Admix.assert_close return None (as the Model says)")
+    ctx.extra["notes"] = sorted(set(ctx.extra.get("notes", [])) | notes)
+
+
 def near_one_corpus():
     """valid graphs whose merger / admixture proportions sum to 1 only within the tolerance of the validators
     (1 ± 2⁻³¹, exactly representable): the record classes must accept what `Deme` accepted"""
@@ -183,6 +379,7 @@ def near_one_corpus():
 
 def run(ctx):
     run_records(ctx)
+    run_records_close(ctx)
     n = 1200 if ctx.tier == "quick" else 20000
     done = 0
     first = True
@@ -264,6 +461,14 @@ def run(ctx):
 def replay(ctx, payload):
     import demes
     inp = payload["input"]
+    if "perturbation" in inp:           # a pair of records compared for closeness
+        rel, ab = inp["tolerances"]
+        kw = {} if rel is None else {"rel_tol": rel, "abs_tol": ab}
+        a, b = inp["a"], inp["b"]
+        ra, _ = real_record(a["kind"], a["fields"]); rb, _ = real_record(b["kind"], b["fields"])
+        print("real isclose:", ra.isclose(rb, **kw), "reverse:", rb.isclose(ra, **kw), "assert_close:", assert_outcome(ra, rb, kw),
+              "Model:", ctx.driver.batch([close_request(a["kind"], a["fields"], b["kind"], b["fields"], rel, ab)]))
+        return 0
     if "document" not in inp:          # a directly constructed record
         print(inp["kind"], inp["fields"], "real class:", real_record_accepts(inp["kind"], inp["fields"]),
               "Model:", ctx.driver.batch([record_request(inp["kind"], inp["fields"])]))
